@@ -10,10 +10,13 @@ def register(add):
     register_mul(add)
     for conf, tier in (('w8', 'quick'),):
         register_conf(add, conf, tier)
-    register_conf(add, 'base', 'thorough', only_none=True)
+    # shipped configuration (64-bit digits, RLC_BN_SIZE 34): only the units whose 2304-bit value obligations the SAT back end
+    # finishes within 12 GB are registered; the others (add1/sub1/rsh1/lshb/rshb/dv_lshd/dv_rshd/dv_cmp/dv_copy) ran out of
+    # memory or time at this width and stay covered at the 8-bit configuration only (DESIGN 0.1).
+    register_conf(add, 'base', 'thorough', only_none=True, only=('bn_addn_low', 'bn_subn_low', 'bn_lsh1_low', 'dv_zero'))
 
 
-def register_conf(add0, CONF, TIER, only_none=False):
+def register_conf(add0, CONF, TIER, only_none=False, only=None):
     N = NB[CONF]
     global L3, L2
     L3s, L2s = L3, L2
@@ -22,6 +25,8 @@ def register_conf(add0, CONF, TIER, only_none=False):
         L2 = [x for x in L2 if x[0] == 'none']
 
     def add(name, *a, **k):
+        if only is not None and name.split('.')[0] not in only:
+            return None
         k.setdefault('tier', TIER)
         k.setdefault('bound_note', 'size <= RLC_BN_SIZE symbolic, loops unwound %d times with unwinding assertions, configuration %s' % (N, CONF))
         return add0(name + '@' + CONF, *a, **k)
@@ -54,6 +59,7 @@ def register_conf(add0, CONF, TIER, only_none=False):
     low('dv_copy', DV, 'dig_t *c; const dig_t *a; size_t n;', 'dv_copy(c, a, n)', shapes=[('none', 'VC_L_NONE')])
     low('dv_cmp', DV, 'const dig_t *a, *b; size_t n;', 'dv_cmp(a, b, n)', shapes=[('none', 'VC_L_NONE'), ('ab', 'VC_L_AB')])
     low('dv_zero', DV, 'dig_t *a; size_t n;', 'dv_zero(a, n)', shapes=[('none', 'VC_L_NONE')])
+    L3, L2 = L3s, L2s
 
 
 def register_mul(add0):
